@@ -3,6 +3,8 @@
 # pylint: disable=cyclic-import
 # pylint: disable=too-many-instance-attributes
 # pylint: disable=protected-access
+from copy import deepcopy
+
 import numpy as np
 from scipy.spatial.transform import Rotation as R
 
@@ -93,6 +95,10 @@ class BaseGeo(BaseTransform):
 
     @staticmethod
     def _process_style_kwargs(style=None, **kwargs):
+        # work on a copy: the dictionary of the caller must neither be changed nor stay
+        # referenced by the object (it is only applied when the style is first accessed)
+        if isinstance(style, dict):
+            style = deepcopy(style)
         if kwargs:
             if style is None:
                 style = {}
@@ -353,9 +359,6 @@ class BaseGeo(BaseTransform):
         >>> print(f"Instance {sens2.style.label} with position {sens2.position}.")
         Instance sens2 with position [ 2.  6. 10.].
         """
-        # pylint: disable=import-outside-toplevel
-        from copy import deepcopy
-
         # avoid deepcopying the deep dependency upwards the tree structure
         if self.parent is not None:
             # using private attributes to avoid triggering `.add` method (see #530 bug)
